@@ -1,5 +1,6 @@
 import Ndt.Num
 import Ndt.Gen.LogRule
+import Ndt.Gen.DiffFuns
 /-!
 Model of the scalar difference quotients `finite_difference.DifferenceFunctions`
 (finite_difference.py:46-103) as functionals of the user function, and of the name resolution
@@ -24,12 +25,8 @@ def dComplex (f : Cx K → Cx K) (x h : K) : K := (f ⟨x, h⟩).im
 
 The carrier `C` of the complex values and its operations are parameters (`CStep`): ℂ in the theorems
 (`sj` any square root of `I`), `ℚ(ζ₈)` in the exact runs of the driver. -/
-structure CStep (K C : Type) where
-  ofReal : K → C
-  i : C           -- `1j`
-  sj : C          -- `_SQRT_J`
-  re : C → K
-  im : C → K
+-- `CStep K C` (ofReal, i, sj, re, im) is declared next to the generated quotients, `Ndt.Gen.CStep`
+export Ndt.Gen (CStep)
 
 section cstep
 variable {C : Type} [Add C] [Sub C] [Mul C] [OfNat K 3] [OfNat K 12]
